@@ -825,18 +825,34 @@ fn check_program(src: &str, sets: &[Binds], sub: &str, mode: &str, acc: &mut Acc
         }
         // behaviour
         let mut behaviour: Option<(usize, Sum)> = None;
+        let mut order_dependent = false;
         for (k, b) in ctxs.iter().enumerate() {
             acc.eval_only(sub, 1);
             if base[k].is_panic() {
                 continue;
             }
-            let r = exec_shared(&back, b).sum();
+            let mut r = exec_shared(&back, b).sum();
+            if r == base[k] && w.multi_map {
+                // a map constant is rebuilt by every deserialization: read the same bytes back a few
+                // more times, each copy must behave like the original too
+                for _ in 0..6 {
+                    if let Ok(again) = de_prog(fmt, &bytes) {
+                        let r2 = exec_shared(&again, b).sum();
+                        acc.eval_only(sub, 1);
+                        if r2 != base[k] {
+                            r = r2;
+                            break;
+                        }
+                    }
+                }
+            }
             if r == base[k] {
                 continue;
             }
             if reference_unstable(src, &sets[k], &base[k]) {
-                acc.skip("result depends on HashMap iteration order (fresh compilations disagree)");
-                continue;
+                // the original is self-consistent (its map constant is built once) but what a copy
+                // does depends on how its map happens to be laid out: the copy is not the original
+                order_dependent = true;
             }
             behaviour = Some((k, r));
             break;
@@ -860,7 +876,13 @@ fn check_program(src: &str, sets: &[Binds], sub: &str, mode: &str, acc: &mut Acc
             continue;
         }
         if let Some((k, r)) = behaviour {
-            let mode_s = if r.is_panic() { "exec-panic-after-roundtrip" } else { "result-differs" };
+            let mode_s = if r.is_panic() {
+                "exec-panic-after-roundtrip"
+            } else if order_dependent {
+                "result-depends-on-map-layout"
+            } else {
+                "result-differs"
+            };
             out.push(Failure::new(
                 format!("c19:{}:{}:{}", f, class, mode_s),
                 format!(
@@ -1506,6 +1528,15 @@ fn grid() -> Vec<String> {
         "f'{v}{1.0/0.0}'", "v + 1.0/0.0", "[0.0/0.0, v]", "v ? 0.0/0.0 : -1.0/0.0", "[1, 2].map(x, x * (1.0/0.0))",
         "v == timestamp('2024-01-10T08:57:45.123Z')", "timestamp(int(v)) + duration('1h')", "[duration(1, 500000000), v]",
         "zz", "zz + v", "zz.a", "[zz]",
+        // map constants as macro ranges, bodies that fail differently per key (the visiting order would decide)
+        "{'p': 0, 'q': 1, 'r': 2}.map(k, [v][{'p': 0, 'q': 1, 'r': 2}[k]])",
+        "{'p': 0, 'q': 1, 'r': 2}.filter(k, 10 / {'p': 0, 'q': 1, 'r': 2}[k] > 20 || [v][3])",
+        "{'p': 0, 'q': 1, 'r': 2}.all(k, 10 / {'p': 0, 'q': 1, 'r': 2}[k] > 20 && [v][0] == v)",
+        "{'p': 0, 'q': 1, 'r': 2}.exists(k, 10 / {'p': 0, 'q': 1, 'r': 2}[k] < 20 && [v][0] == v)",
+        "{'p': 0, 'q': 1, 'r': 2}.exists_one(k, 10 / {'p': 0, 'q': 1, 'r': 2}[k] < 20 && [v][0] == v)",
+        "{'p': 0, 'q': 1, 'r': 2}.reduce(a, k, a + [10 / {'p': 0, 'q': 1, 'r': 2}[k], v][0], 0)",
+        "[{'p': 0, 'q': 1, 'r': 2, 's': 3}, v].map(x, string(x))",
+        "[{'b': 1, 'a': 2, 'c': 3} == {'b': 1 / 0, 'a': 3, 'c': 3}, v]",
     ] {
         out.push(s.to_string());
     }
